@@ -40,6 +40,16 @@ func main() {
 	os.Unsetenv("GOWORK")
 	seed, _ := strconv.Atoi(os.Getenv("VERIF_SEED"))
 
+	// watchdog: an analysis that does not finish is an undecided result, never a silent pass
+	limit := 240 * time.Second
+	if *tier == "thorough" {
+		limit = 40 * time.Minute
+	}
+	time.AfterFunc(limit, func() {
+		fmt.Printf("UNDECIDED  %s.internal:timeout  analysis did not finish within %s\n", *prop, limit)
+		fmt.Printf("VIOLATION property=%s replay=%s\n", *prop, filepath.Join(*verif, "replays", *prop+"-timeout.json"))
+		os.Exit(1)
+	})
 	rf, ok := rules[*prop]
 	if !ok {
 		fmt.Printf("unknown property %q\n", *prop)
